@@ -24,8 +24,10 @@ RULE = ("stack cases = N in 6..40 images of 4^3..10^3 built from r planted ortho
         "singular values, components (up to sign) and projections compared with numpy.linalg.svd of the centred masked "
         "flattened stack; two planted groups must fall into distinct clusters.  loader cases = tomogram with two planted "
         "particle classes at known rows: the label feature is an integer column constant on each class and different "
-        "between them, nothing else about the molecules or the source loader changes; non-trivial = chunked stack or "
-        "loader case; distinct by case seed")
+        "between them, nothing else about the molecules or the source loader changes; wmd cases = randomly oriented "
+        "molecules under several tilt models: every row of the PCA input equals the wedge-masked difference computed by a "
+        "model that has seen no other molecule, a reused model gives the same rows in any order, and the singular values "
+        "the loader reports are those of that stack; non-trivial = chunked stack or loader/wmd case; distinct by case seed")
 TOLERANCES = {"sv_rtol_full": 1e-4, "sv_rtol_randomized": 2e-3, "cos_full": 1e-6, "cos_randomized": 1e-3,
               "proj_rel": 5e-3}
 MIN_DECIDED = {"quick": 300, "thorough": 6000}
@@ -48,6 +50,10 @@ def cases(tier, seed):
         out.append({"kind": "loader", "N": int(rng.integers(8, 21)), "S": int(rng.choice([6, 7, 8])),
                     "sched": ("sync", "threads", "shuffle")[int(rng.integers(0, 3))],
                     "tilt": bool(rng.random() < 0.4), "iseed": int(rng.integers(0, 2**31)), "cost": 8.0})
+    for i in range(nl):
+        out.append({"kind": "wmd", "N": int(rng.integers(8, 17)), "S": int(rng.choice([6, 7])),
+                    "sched": ("sync", "threads", "shuffle")[int(rng.integers(0, 3))],
+                    "iseed": int(rng.integers(0, 2**31)), "cost": 8.0})
     return out
 
 
@@ -194,7 +200,89 @@ def _loader_case(case):
                labels=lab.tolist(), planted=cls.tolist())
 
 
+def _wmd_case(case):
+    """Wedge-masked differences: molecules with different orientations under a tilt model.  The stack fed to the
+    PCA must be, row by row, what a model that has seen no other molecule computes for that molecule."""
+    from acryo import SubtomogramLoader, Molecules
+    from acryo.alignment import ZNCCAlignment
+    from vcheck import ref
+
+    p = case.params
+    rng = gen.rng_for(p["iseed"], "c18w")
+    N, S = p["N"], p["S"]
+    shape = (S, S, S)
+    blobsA = gen.make_blobs(rng, shape, n=3, sigma=(0.9, 1.2), r_sup=1.2)
+    blobsB = blobsA + [(0.9, np.array([1.1, -0.9, 0.7]), 1.0)]
+    spacing = S + 6
+    T = (spacing + 4, spacing + 4, spacing * N + 4)
+    vol = np.zeros(T)
+    cls = (rng.random(N) < 0.5).astype(int)
+    rots = Rotation.random(N, random_state=int(rng.integers(0, 2**31)))
+    pos = []
+    for i in range(N):
+        c = np.array([T[0] / 2, T[1] / 2, spacing / 2 + 2 + spacing * i])
+        gen.render_world(T, blobsA if cls[i] == 0 else blobsB, c, rots[i], dtype=None, out=vol)
+        pos.append(c)
+    vol = (vol + 0.02 * rng.normal(size=T)).astype(np.float32)
+    mole = Molecules(np.array(pos), rots)
+    loader = SubtomogramLoader(vol, mole, order=1, output_shape=shape)
+    from vcheck.props.c04 import tilt_model
+
+    tname = ("y60", "y4055", "x50", "dual", "none")[int(rng.integers(0, 5))]
+    tilt = tilt_model(tname)
+    tmpl = gen.render_box(shape, blobsA) if rng.random() < 0.6 else np.asarray(loader.average())
+    mask = None
+    if rng.random() < 0.5:
+        zz = np.indices(shape) - (S - 1) / 2
+        mask = (1 / (1 + np.exp(np.sqrt((zz ** 2).sum(0)) - S / 2.5))).astype(np.float32)
+    k = int(rng.integers(1, 4))
+    with _sched(p, p["iseed"]):
+        res = loader.classify(tmpl, mask, n_components=k, n_clusters=2, tilt=tilt, seed=0)
+    case.nontrivial(p["iseed"])
+    subs = np.asarray(loader.asnumpy())
+    quats = mole.quaternion()
+    rows = []
+    for i in range(N):
+        fresh = ZNCCAlignment(tmpl, mask, cutoff=0.5, tilt=tilt)
+        rows.append(np.asarray(fresh.masked_difference(subs[i], quats[i])))
+    # a model that is reused in another order gives the same rows (no state carried between molecules)
+    shared = ZNCCAlignment(tmpl, mask, cutoff=0.5, tilt=tilt)
+    worst = 0.0
+    for i in rng.permutation(N):
+        d = np.asarray(shared.masked_difference(subs[i], quats[i]))
+        worst = max(worst, float(np.abs(d - rows[i]).max()) / max(float(np.abs(rows[i]).max()), 1e-9))
+    case.maxobs("max_history_dependence", worst)
+    case.check(worst <= 1e-4, "masked_difference depends on the molecules processed before (shared model != fresh model)",
+               None, rel=worst, tilt=tname)
+    # semi-independent value reference for one row: low-pass, wedge (C08 decides the wedge itself), subtract
+    m = 1.0 if mask is None else mask
+    i0 = int(rng.integers(0, N))
+    mw = _wedge(ZNCCAlignment(tmpl, mask, cutoff=0.5, tilt=tilt), quats[i0])
+    want0 = np.fft.ifftn((ref.lowpass_ft(subs[i0] * m, 0.5, 2) - ref.lowpass_ft(tmpl * m, 0.5, 2)) * mw).real
+    e0 = float(np.abs(rows[i0] - want0).max()) / max(float(np.abs(want0).max()), 1e-9)
+    case.maxobs("max_wmd_value_err", e0)
+    case.check(e0 <= 2e-3, "masked_difference != ifftn((LP(image*mask) - LP(template*mask)) * wedge)", None, rel=e0)
+    # the PCA the loader ran is the exact PCA of these rows
+    X = (np.stack(rows).astype(np.float64) * m).reshape(N, -1)
+    Sv = np.linalg.svd(X - X.mean(0), compute_uv=False)
+    sv_got = np.asarray(res.classifier.pca.singular_values_, float)
+    err = float(np.max(np.abs(sv_got - Sv[:k]) / Sv[:k])) if sv_got.shape == (k,) else np.inf
+    case.maxobs("max_sv_rel_err_wmd", err if np.isfinite(err) else 9.9)
+    case.check(err <= 2e-3, "classify: singular values are not those of the wedge-masked differences of each molecule "
+               "taken on its own", None, got=sv_got, want=Sv[:k], tilt=tname)
+    lab = res.loader.molecules.features["cluster"]
+    case.check(len(lab) == N and lab.dtype.is_integer(), "label feature is not one integer per molecule", None)
+
+
+def _wedge(model, quat):
+    from acryo.backend import Backend
+
+    return np.asarray(model._get_missing_wedge_mask(quat, Backend()))
+
+
 def run(case):
+    if case.params["kind"] == "wmd":
+        return _wmd_case(case)
     if case.params["kind"] == "stack":
         _stack_case(case)
     else:
